@@ -64,6 +64,8 @@ func c20Run(r *core.Run) {
 	// serves no token (directory-only front end); its check passes are vacuous,
 	// complete at once and cannot fail, so it is healthy unless disabled
 	noTokens := t.Chance(1, 12, "no-served-tokens")
+	// releasing a token at Close may fail; the checker ends all the same
+	closeFails := t.Chance(1, 5, "token-close-fails")
 	interval := time.Duration(core.Pick(t, "interval", 5, 1, 60)) * time.Second
 	timeout := time.Duration(core.Pick(t, "timeout", 3, 1, 200)) * time.Second
 	nfail := core.Pick(t, "failures", 3, 1, 2, 5)
@@ -144,6 +146,10 @@ func c20Run(r *core.Run) {
 		w.TokenPlan = func(tok *world.SimToken, op, key string, n int) world.TokOutcome {
 			if op == "ping" && n < len(script[tok.Name]) {
 				return script[tok.Name][n]
+			}
+			if op == "close" && closeFails {
+				r.Fault("token-close-error")
+				return world.TokOutcome{Kind: "error"}
 			}
 			return world.TokOutcome{}
 		}
